@@ -6,7 +6,7 @@ import SleapVerif.Model.Datasets
    → `ok c <npts> x y … in <npts> x y … spec <npts> x y …`
    (returned centroids, the input tensor after the call, `centroidOf` per instance)
 
-`ds <variant> <kind 0=bottomUp 1=single 2=centroid 3=centered> <userOnly> <maxH|-1> <maxW|-1>
+`ds <variant> <kind 0=bottomUp 1=single 2=centroid 3=centered> <userOnly> <maxH|-1> <maxW|-1> <cfgMaxH|-1> <cfgMaxW|-1>
     <scale> <anchor|-1> <cropH> <cropW> <nFrames> {<frameIdx> <videoIdx> <H> <W> <nInst>
     {<kind 0=user 1=predicted> <nNodes> <coords…>}} <seqLen> <i…>`
    → `ok len <n> idx <m> … reads <k> {s <nkeys> {<key> <npts> x y …} <num> <f> <v> <H> <W> | raise}
@@ -66,12 +66,13 @@ def dsOp : P String := do
   let kind ← nat
   let uo ← bool
   let mh ← optNat; let mw ← optNat
+  let cmh ← optNat; let cmw ← optNat
   let sc ← rat
   let a ← optNat
   let ch ← nat; let cw ← nat
   let fs ← listOf frameP
   let seq ← listOf nat
-  let cfg : Cfg Rat := ⟨kindOf kind, uo, mh, mw, sc, a, ch, cw⟩
+  let cfg : Cfg Rat := ⟨kindOf kind, uo, mh, mw, cmh, cmw, sc, a, ch, cw⟩
   let ds0 := build v cfg castQ fs
   let steps := cfg.steps castQ
   let (_, outs, specOk) := seq.foldl (fun (acc : DS Rat × List String × Bool) i =>
